@@ -218,7 +218,7 @@ func buildHostile(c *HCase) []byte {
 		return r.Bytes(r.Range(0, 4096))
 	case "structured":
 		return structuredGarbage(sim.NewRng(c.Seed), c.Format)
-	case "mutate":
+	case "mutate", "mutate-long":
 		b := c.Base.Build()
 		if b.Err != nil {
 			if b.Err == errWriterFailed {
@@ -229,8 +229,16 @@ func buildHostile(c *HCase) []byte {
 		r := sim.NewRng(c.Seed)
 		img := append([]byte(nil), b.Stream...)
 		depth := r.Range(1, 3)
-		for i := 0; i < depth; i++ {
-			img = mutateBytes(r, img)
+		if c.Kind == "mutate-long" {
+			// bit flips in the body only: the decoder keeps going with a damaged model
+			for i := 0; i < depth; i++ {
+				p := r.Range(len(img)/8, len(img)-1)
+				img[p] ^= 1 << uint(r.Intn(8))
+			}
+		} else {
+			for i := 0; i < depth; i++ {
+				img = mutateBytes(r, img)
+			}
 		}
 		if c.Format == "xz" && r.Bool() {
 			if f := xzSpans(b.Stream); f != nil {
@@ -254,6 +262,28 @@ func genHCase(r *sim.Rng, tier string, idx int) *HCase {
 	case 0:
 		c.Kind = "mutate"
 		var s StreamRecipe
+		if r.Chance(1, 8) {
+			// a long stream over a small window: output of several windows, so that
+			// damaged distances can point beyond the window but inside what was decoded
+			n := r.Range(9000, 70000)
+			pl := sim.Payload{Kind: sim.Pick(r, []string{"text", "text", "alpha", "period"}), N: n, Seed: r.Uint64(), A: r.Range(2, 300)}
+			ops := []Op{{K: "w", N: n}, {K: "c"}}
+			switch c.Format {
+			case "xz":
+				s = StreamRecipe{Kind: "lib", W: &WCase{Format: "xz", XZ: &XZCfg{LC: 3, PB: 2, DictCap: 4096, BufSize: 4096, CheckSum: sim.Pick(r, []byte{0, 1, 4}), NoCheckSum: r.Bool()}, Payload: pl, Ops: ops}}
+			case "lzma":
+				s = StreamRecipe{Kind: "lib", W: &WCase{Format: "lzma", LZ: &LZCfg{LC: 3, PB: 2, DictCap: 4096, BufSize: 4096, SizeInHeader: r.Bool(), Size: int64(n)}, Payload: pl, Ops: ops}}
+				if !s.W.LZ.SizeInHeader {
+					s.W.LZ.Size = 0
+				}
+			default:
+				s = StreamRecipe{Kind: "lib", W: &WCase{Format: "lzma2", L2: &L2Cfg{LC: 3, PB: 2, DictCap: 4096, BufSize: 4096}, Payload: pl, Ops: ops}}
+			}
+			c.RDict = 4096
+			c.Base = &s
+			c.Kind = "mutate-long"
+			return c
+		}
 		switch c.Format {
 		case "xz":
 			s = genDFStream(r, tier, false, 300)
@@ -294,7 +324,7 @@ func runHCase(c *HCase, x *sim.Ctx) *sim.Violation {
 	}
 	x.Nontrivial(1)
 	x.Fault("hostile-" + c.Kind)
-	rc := &RCase{Src: c.Src, Reads: c.Reads, RDict: c.RDict, PostEOF: []int{1}}
+	rc := &RCase{Src: c.Src, Reads: c.Reads, RDict: c.RDict, PostEOF: []int{1}, PostErr: []int{7, 0, 4096, 1}}
 	res := runReader(c.Format, img, 0, rc, 8<<20, x)
 	class := "error"
 	switch {
